@@ -812,8 +812,14 @@ def stage_translation(ctx, schemas, tag):
         for pkg, st in d["packages"].items():
             ctx.count("import:" + ("ok" if st == "ok" else "failed"))
             if st != "ok":
-                ctx.fail("oracle", "a generated package fails to import under a supported option combination",
-                         cls=f"import-failure:{v[0]}", input=small_input(pkg, v), observed=st)
+                sch = schema_of(schemas, pkg)
+                parts = pkg.split(".")      # importing a package imports its ancestors first
+                alias = sorted({a for i in range(1, len(parts) + 1) for a in G.alias_named_fields(sch, ".".join(parts[:i]))}) if sch else []
+                k32 = bool(alias) and v[1] and "Placeholder" in str(st)
+                ctx.fail("oracle", "a generated package fails to import under a supported option combination"
+                         + (f" (pydantic variant, fields {alias} are called like the import alias of their type's package)" if k32 else ""),
+                         cls="K32-field-named-like-import-alias-pydantic" if k32 else f"import-failure:{v[0]}",
+                         input=small_input(pkg, v), observed=st)
         for full, c in d["classes"].items():
             if "error" in c:
                 ctx.fail("oracle", "a generated message class cannot be introspected / instantiated", cls="class-error",
@@ -1137,6 +1143,7 @@ def run(ctx):
             schemas = []
             if bi == 0:
                 schemas.append(G.systematic_schema(rng, "s0"))
+                schemas.append(G.alias_schema(rng, "al0"))
                 for ci, entry in enumerate(load_corpus()):
                     try:
                         schemas.append(corpus_schema(entry, f"k{ci}"))
